@@ -11,7 +11,7 @@ from ..core.sigbind import param_names
 from ._ai import degree_interp, plain_signal, function_signal, degree_verdict, lam
 
 META = {
-    "explanation": "R08a abstract interpretation (homogeneity-degree domain) of apply_response for Antenna, DipoleAntenna and through "
+    "explanation": "R08k (pointed) partial evaluation of apply_response per Signal.Type member: every member other than voltage and field raises on every path.  R08a abstract interpretation (homogeneity-degree domain) of apply_response for Antenna, DipoleAntenna and through "
                    "AntennaSystem: result values are linear in the input values, of degree +1 in directional gain, polarization gain, "
                    "efficiency and frequency response, and of degree -1 in the antenna factor on the field arm / 0 on the voltage arm -- "
                    "for every signal and parameter value.  R08b decision list on the *input* signal's type; R08c copy -> filter once with "
@@ -354,7 +354,117 @@ def r08h(ctx):
     relay(ctx, "R08h", "the copy that apply_response filters shares no component list with the incoming signal (= R04c)", "C04", c04.r04c, "R04c", kind="N")
 
 
+def r08k(ctx):
+    """Pointed: partial evaluation of Antenna.apply_response for each member of Signal.Type (read from the enum's own body).  Only the value-type tests
+    are decided; every other test takes both branches.  A member other than voltage / field for which no path raises is accepted -- that is the finding,
+    whatever the spelling of the dispatch."""
+    repo = ctx.repo
+    ctx.rule("R08k", "for every Signal.Type member other than voltage and field, some statement of apply_response raises on every path the member can take "
+             "(rejection by exclusion, not by listing the bad types)", expected=2, kind="N")
+    fn = repo.member(A, "apply_response")
+    c = f"{A}.apply_response"
+    sigp = fn.args.args[1].arg
+    tcls = None
+    for n in ast.walk(repo.cls("pyrex.signals.Signal").node):
+        if isinstance(n, ast.ClassDef) and n.name == "Type":
+            tcls = n
+    members = {}
+    for st in (tcls.body if tcls else []):
+        if isinstance(st, ast.Assign) and isinstance(st.targets[0], ast.Name) and isinstance(st.value, ast.Constant):
+            members[st.targets[0].id] = st.value.value
+    if "voltage" not in members or "field" not in members:
+        ctx.unknown("R08k", c, "Signal.Type members are class-level constants", str(members), required=False)
+        return
+    alias = {f"{sigp}.value_type"}
+    for n in ast.walk(fn):
+        if isinstance(n, ast.Assign) and len(n.targets) == 1 and isinstance(n.targets[0], ast.Name) and u(n.value) == f"{sigp}.value_type":
+            alias.add(n.targets[0].id)
+
+    def member_of(e):
+        t = u(e)
+        for pre in ("Signal.Type.", f"{sigp}.Type.", "Signal.Type(", ):
+            if t.startswith(pre) and t[len(pre):] in members:
+                return members[t[len(pre):]]
+        return None
+
+    def ev(test, val):
+        if isinstance(test, ast.UnaryOp) and isinstance(test.op, ast.Not):
+            r = ev(test.operand, val)
+            return None if r is None else not r
+        if isinstance(test, ast.BoolOp):
+            rs = [ev(v, val) for v in test.values]
+            if isinstance(test.op, ast.And):
+                return False if any(r is False for r in rs) else (True if all(r is True for r in rs) else None)
+            return True if any(r is True for r in rs) else (False if all(r is False for r in rs) else None)
+        if isinstance(test, ast.Compare) and len(test.ops) == 1:
+            l, r_, op = test.left, test.comparators[0], test.ops[0]
+            if u(r_) in alias and isinstance(op, (ast.Eq, ast.NotEq, ast.Is, ast.IsNot)):
+                l, r_ = r_, l
+            if u(l) not in alias:
+                return None
+            if isinstance(op, (ast.Eq, ast.Is, ast.NotEq, ast.IsNot)):
+                m = member_of(r_)
+                if m is None:
+                    return None
+                return (m == val) if isinstance(op, (ast.Eq, ast.Is)) else (m != val)
+            if isinstance(op, (ast.In, ast.NotIn)) and isinstance(r_, (ast.Tuple, ast.List, ast.Set)):
+                ms = [member_of(e) for e in r_.elts]
+                if any(m is None for m in ms):
+                    return None
+                return (val in ms) if isinstance(op, ast.In) else (val not in ms)
+        return None
+
+    def run_(stmts, val):
+        """-> set of outcomes of the block: 'raise', 'return', 'fall'"""
+        out = {"fall"}
+        for st in stmts:
+            if "fall" not in out:
+                break
+            out.discard("fall")
+            if isinstance(st, ast.Raise):
+                o = {"raise"}
+            elif isinstance(st, ast.Return):
+                o = {"return"}
+            elif isinstance(st, ast.If):
+                r = ev(st.test, val)
+                o = set()
+                if r is not False:
+                    o |= run_(st.body, val)
+                if r is not True:
+                    o |= run_(st.orelse, val) if st.orelse else {"fall"}
+            elif isinstance(st, (ast.For, ast.While, ast.With, ast.Try)):
+                o = {"fall"}
+                for blk in [getattr(st, "body", []), getattr(st, "orelse", []), getattr(st, "finalbody", [])] + [h.body for h in getattr(st, "handlers", [])]:
+                    o |= run_(blk, val) if blk else set()
+                if any(isinstance(x, ast.Call) and isinstance(y, ast.Name) and y.id in alias | {sigp} for x in ast.walk(st) for y in ast.walk(x) if isinstance(x, ast.Call)):
+                    o.add("raise")      # the signal is handed to something inside a compound statement: not read
+            else:
+                o = {"fall"}
+            out |= o
+        return out
+    # a helper that receives the value type may do the rejecting: not read by this rule
+    handed = [x for x in ast.walk(fn) if isinstance(x, ast.Call) and any(u(a) in alias for a in list(x.args) + [k.value for k in x.keywords]) and u(x.func) != "str"]
+    if handed:
+        ctx.unknown("R08k", c, "the value type is decided inside apply_response", f"handed to {u(handed[0].func)}", required=False)
+        return
+    done = set()
+    for name, val in members.items():
+        if val in (members["voltage"], members["field"]) or val in done:
+            continue
+        done.add(val)
+        same = "/".join(k for k, v in members.items() if v == val)
+        out = run_(strip_doc(fn), val)
+        if "raise" not in out:
+            ctx.bad("R08k", c, f"a signal of type `{same}` is rejected", f"with value_type == Signal.Type.{name} no path through apply_response reaches a raise "
+                    f"(outcomes: {sorted(out)}): the input is processed as if it were a voltage", key_detail=f"type {name} accepted", loc=ctx.loc("pyrex.antenna", fn), pointed=True)
+        elif out == {"raise"}:
+            ctx.ok("R08k", c, f"a signal of type `{same}` is rejected on every path")
+        else:
+            ctx.unknown("R08k", c, f"a signal of type `{same}` is rejected on every path", f"outcomes {sorted(out)}", required=False)
+
+
 def run(ctx):
+    ctx.guard(r08k)         # pointed rules first (see Ctx.guard)
     ctx.guard(r08h)
     ctx.guard(r08a)
     ctx.guard(r08b)
@@ -367,6 +477,10 @@ def run(ctx):
 
 SELFTEST = {
     "faults": [
+        {"name": "only the undefined type is rejected, up front", "file": "pyrex/antenna.py",
+         "old": "        else:\n            raise ValueError(\"Signal's value type must be either \"\n                             +\"voltage or field. Given \"+str(signal.value_type))\n        new_signal *= signal_factor",
+         "new": "        elif signal.value_type==Signal.Type.undefined:\n            raise ValueError(\"Signal's value type must be either \"\n                             +\"voltage or field. Given \"+str(signal.value_type))\n        new_signal *= signal_factor",
+         "rule": "R08k"},
         {"name": "force_real dropped in AntennaSystem.apply_response (generic hand-over rule)", "file": "pyrex/detector.py",
          "old": "        return self.antenna.apply_response(signal, direction=direction,\n                                           polarization=polarization,\n                                           force_real=force_real)",
          "new": "        return self.antenna.apply_response(signal, direction=direction,\n                                           polarization=polarization)", "rule": "R08x"},
